@@ -2,16 +2,33 @@ from specs import KEYS, CHECKS, unit
 
 KEYS['crunchrun_c17'] = {
     'pkg': 'lib/crunchrun',
+    # exports VerifC17SetMaxBlockSize so that the collection filesystem's block limit can be reduced to 8/32/100 bytes
     'hooks': {'sdk/go/arvados/verif_hooks_c17.go': 'harness/crunchrun_c17/hooks/arvados_hooks.go'},
 }
 
 CHECKS['C17'] = {
-    'ready': False,
+    'ready': True,
     'level': 'exploration',
-    'rule': 'TODO',
-    'assumptions': [],
+    'rule': 'each case is a real directory tree under /dev/shm (depth <=4, <=40 entries, files 0..3B bytes with block limit B in {8,32,100}, '
+            'names with space/colon/backslash/non-ASCII incl. invalid UTF-8, empty dirs, rarely a fifo) with symlinks (absolute incl. '
+            'non-canonical spellings, relative; to files, dirs, other links, chains of 2..13, cycles, into collection mounts (root/subdir/file), '
+            'into secret mounts, outside every mount, dangling), 0-2 read-only collection mounts (manifests from the C10 generator, mounted '
+            'beside or beneath the output path, whole/subdir/single file, with/without placeholder, optionally exclude_from_output or sharing '
+            'one PDH), 0-2 secret mounts (beside or beneath the output path), fed to the real copier.Copy(); '
+            'non-trivial = the tree contains a symlink or a collection is mounted beneath the output path; '
+            'distinct = fingerprint of the full scenario listing (mounts, manifests, every entry with size/target)',
+    'assumptions': [
+        'expected tree computed by an independent in-memory walk that follows the copier doc comment; returned manifest read by the '
+        'reference interpreter of the manifest format (vcommon/mgen) over the stub Keep contents plus the mounted collections\' blocks',
+        'relative link targets never pass through a symlinked directory (lexical = physical resolution), as the design prescribes',
+        'chains: <=10 nested links must be copied, a cycle must fail, a finite nesting of 11+ may do either',
+        'links to a nonexistent path inside a collection mount, into an exclude_from_output mount: error or absence both accepted (property silent)',
+        'a link into a second tmp mount must fail; a panic is tolerated there (and only where failure is required) and labelled',
+        'a runaway walk (cycle followed forever) ends in a fatal stack overflow: crash_is_violation, the in-flight scenario JSON is the replay artifact',
+    ],
+    'technique': 'property-based testing (rapid) of the real copier against a model walk + reference manifest interpreter',
     'units': [
-        unit('copier', 'crunchrun_c17', '^TestVerifC17', {'shards': 16, 'checks': 400}, {'shards': 16, 'checks': 8000, 'timeout': 1500},
+        unit('copier', 'crunchrun_c17', '^TestVerifC17', {'shards': 16, 'checks': 400}, {'shards': 16, 'checks': 20000, 'timeout': 1500},
              crash_is_violation=True, env={'GOTRACEBACK': 'single'}),
     ],
 }
